@@ -4,7 +4,11 @@
 
   A *root* is a natural number: `3*slot + d` for the receiver (slot 0) or the i-th parameter
   (slot i) of the function — d = 0 the object it refers to, 1 the objects that one holds
-  references to, 2 anything deeper — and `1000 + 3*g + d` for package variable `g`.
+  references to, 2 anything deeper — and `1000 + 3*g + d` for package variable `g` (global 0 is the
+  *unknown* global: memory the analysis knows nothing about — what an unknown callee may write, what a
+  function literal captures).  A function literal is a table entry of its own (`encl$N`), the callee
+  of the dynamic calls the extractor resolved.  `PkgVar`: one package-level variable and the functions
+  that syntactically write it.
 -/
 namespace Ytk.EffectT
 
